@@ -216,7 +216,8 @@ def grouped_write_case(draw):
     bounds = [0, *cuts, len(stmts)]
     sinks = [stmts[a:b] for a, b in zip(bounds, bounds[1:])]
     return {"kind": "grouped_write", "integration": integration, "logical": logical, "arity": arity, "sinks": sinks,
-            "preset": draw(gen.preset_for(stmts)), "frame_size": 250, "delimited": True,
+            # frame_size is irrelevant for grouped flows (a frame per graph / dataset) - so it must stay irrelevant
+            "preset": draw(gen.preset_for(stmts)), "frame_size": draw(st.sampled_from([1, 2, 5, 250])), "delimited": True,
             "phys": "TRIPLES" if triples else "QUADS",
             "params": {"generalized": integration == "generic", "rdf_star": integration == "generic", "stream_name": ""}}
 
